@@ -48,7 +48,7 @@ def fr(x):
     return str(x)
 
 
-def build_algorithms(spec):
+def build_algorithms(spec, shared=None):
     import planning as hp
     from topsim.core.delay import DelayModel
     from topsim.user.plan.batch_planning import BatchPlanning
@@ -59,6 +59,9 @@ def build_algorithms(spec):
 
     d = spec.get("delay")
     delay = None
+    if shared is not None and "delay" in shared:
+        delay = shared["delay"]           # a sweep script that builds its DelayModel once
+        d = None
     if d:
         if "script" in d:
             delay = hp.ScriptedDelay(d["script"])
@@ -67,6 +70,8 @@ def build_algorithms(spec):
         else:
             delay = DelayModel(d["prob"], d.get("dist", "normal"),
                                DelayModel.DelayDegree[d["degree"]], seed=d.get("seed", 20))
+    if shared is not None and delay is not None and "script" not in str(type(delay)).lower():
+        shared.setdefault("delay", delay)
     if spec["planning"] == "batch":
         plan = BatchPlanning("batch", delay)
     else:
@@ -97,14 +102,14 @@ def build_algorithms(spec):
 class SimHandle:
     """A constructed simulation + where its files live."""
 
-    def __init__(self, spec, env=None, keep=False):
+    def __init__(self, spec, env=None, keep=False, shared=None):
         from topsim.core.simulation import Simulation
         from topsim.user.telescope import Telescope
         self.spec = spec
         self.dir = simgen.workdir("sim")
         self.cfg = simgen.write_case(spec, self.dir)
         self.env = env if env is not None else simpy.Environment()
-        plan, sched, delay = build_algorithms(spec)
+        plan, sched, delay = build_algorithms(spec, shared)
         self.planning, self.scheduling, self.delay = plan, sched, delay
         self.sim = Simulation(self.env, self.cfg, Telescope, plan, None, sched,
                               delay=delay, timestamp=0)
@@ -161,10 +166,10 @@ def outputs(sim, df=None):
     return {"rows": rows, "events": ev, "tasks": tasks, "task_order": order, "task_truth": truth}
 
 
-def run_spec(spec, listeners=(), until=None, resume=None, max_steps=None, env=None):
+def run_spec(spec, listeners=(), until=None, resume=None, max_steps=None, env=None, shared=None):
     """Run `spec` on the real code.  Returns a record dict; never raises for
     exceptions of the simulation itself (they are recorded)."""
-    h = SimHandle(spec, env=env)
+    h = SimHandle(spec, env=env, shared=shared)
     tr = tracer_mod.Tracer()
     for l in listeners:
         l.attach(h, tr)
